@@ -122,7 +122,7 @@ theorem resumed_generator_unaffected :
         some ((run exL (init exL 1 1) [.send 1 4, .send 2 6, .addon 1]).x 2, 2) := by
   refine ⟨?_, by decide⟩
   simp [AdmissibleAll, Admissible, specStep, Spec.new, upd, SpecGen.state, exSolver, run,
-    ValidOp, OpInHorizon, init, step, sendAt, addonAt]
+    ValidOp, OpInHorizon, init, step, sendAt]
 
 /-- the hypotheses of the two theorems are inhabited by `exSolver` -/
 example : ∀ o f0, (exSolver.start o f0).cur = 0 := fun _ _ => rfl
